@@ -363,7 +363,22 @@ def nats(l):
     return llit([nlit(v) for v in l])
 
 
+def sample_idx(a, n):
+    """indices at which a large vector is compared inside Coq: both ends, the middle, and seeded others"""
+    import random
+    r = random.Random(a["seed"])
+    base = [0, 1, 2, n // 2 - 1, n // 2, n // 2 + 1, n - 3, n - 2, n - 1] + [r.randrange(n) for _ in range(30)] if n else []
+    return sorted(set(i for i in base if 0 <= i < n))
+
+
 def grid_coq(a, o):
+    if a.get("large"):
+        idx = sample_idx(a, len(o["f"]))
+        return "(CSparse %s %s %s %s %s %s %s %s %s %s %s %s %s %s)" % (
+            a["site"], src_coq(a["src"]), nlit(a["N"]), nlit(a["NFFT"]), a["sides"],
+            flit(opt_float(a["lb"]) or 0.0), olit_f(a["ub"]), nlit(a["nfreqs"]), flist(o["lib"]), flit(PI),
+            flit(o["fs_impl"]), nlit(len(o["f"])), llit(["(%s, %s)" % (nlit(i), flit(o["f"][i])) for i in idx]),
+            nlit(o["len"]))
     return "(CGrid %s %s %s %s %s %s %s %s %s %s %s %s %s)" % (
         a["site"], src_coq(a["src"]), nlit(a["N"]), nlit(a["NFFT"]), a["sides"],
         flit(opt_float(a["lb"]) or 0.0), olit_f(a["ub"]), nlit(a["nfreqs"]), flist(o["lib"]), flit(PI),
@@ -710,7 +725,7 @@ def gen_actions(ctx):
             acts.append({"kind": "circle", "fs": float(fs).hex(),
                          "omega": [float(2 * PI * k / n).hex() for k in range(n // 2 + 1)]})
     # ---- sizes far beyond the K range (the theorems cover them; the tie must sample them too)
-    kmax = ctx.scale(600, 2100)          # above this: exact oracle only (no Coq evaluation)
+    kmax = 10 ** 9     # every large case is evaluated in Coq too, on a sample of its entries (CSparse)
     pool = LARGE if not ctx.quick else sorted(set([1025, 2049, 4097, 8193] + rng.sample(LARGE, 7)))
     for n in pool:
         big = {"nok": n > kmax, "large": True}
@@ -743,7 +758,8 @@ def gen_actions(ctx):
         grid("A_Granger", 200, 200, nfreqs=n, **big)
         src = gen_src(rng, True)
         lb, ub = pick_band(rng, src_fs_float(src), n, "band")
-        acts.append({"kind": "keep", "src": src, "N": n, "lb": opt_hex(lb), "ub": opt_hex(ub), "seed": nxt(), "large": True})
+        acts.append({"kind": "keep", "src": src, "N": n, "lb": opt_hex(lb), "ub": opt_hex(ub), "seed": nxt(), "large": True,
+                     "nok": n > kmax})
     return acts
 
 
@@ -914,7 +930,7 @@ def run(ctx):
     nsine = 0
     rng = ctx.rng
     nmax = ctx.scale(70, 150)
-    for n in range(3, nmax + 1, ctx.scale(2, 1)):
+    for n in list(range(3, nmax + 1, ctx.scale(2, 1))) + (rng.sample(LARGE, 5) if ctx.quick else LARGE):
         for site in SINE_SITES:
             sides = "TwoSided" if (site in ("S_periodogram", "S_pcsd", "S_gs_pcsd") and rng.random() < 0.4) else "OneSided"
             src = gen_src(rng, site not in ALGO_SITES)
